@@ -2,7 +2,7 @@
    Property theorems only; proofs in IntegratorProofs.v.  The integrator model takes the
    RatesPolicy / LinearSolverPolicy operations as parameters, exactly as the C++ templates do;
    the theorems hold for every choice of them and every accept / reject history. *)
-From Model Require Import Base Rosenbrock BackwardEulerM IntegratorProofs.
+From Model Require Import Base Rosenbrock BackwardEulerM IntegratorProofs RosScratchProofs.
 From Coq Require Import Ring.
 Local Open Scope nat_scope.
 
@@ -43,3 +43,24 @@ Theorem C05_backward_euler_iterations_are_newton :
     be_ok N V M vzero mzero add_diag forcing negjac vresid (br_stats r) (br_trace r).
 Proof. exact be_counters_and_newton. Qed.
 Print Assumptions C05_backward_euler_iterations_are_newton.
+
+(* Rosenbrock: the stage loop computes the stages of the declared method.  The code keeps function values in the slots
+   of the stage vectors it has not computed yet (slot 0 receives the initial forcing; a stage that evaluates no new
+   function finds the value handed on by its predecessor in its own slot) and overwrites each slot with the solution of
+   its stage.  RosScratchProofs.spec_stages is the method written without that sharing, stage by stage:
+       F_0 = f(Y);   F_i = f(Y + sum_{j<i} a_ij K_j) if new_function_evaluation_[i], F_(i-1) otherwise;
+       K_i = Solve(F_i + sum_{j<i} (c_ij / H) K_j)
+   (the same vaxpy folds over the packed a_ / c_ tables, reading a clean list of the K_j).  For every coefficient
+   table, every stage count and flag vector, both linear-solver variants and whatever the slots held before: after the
+   loop, slot i holds K_i.  Premise on the operations: Fill(0) of the forcing buffer forgets its contents. *)
+Theorem C05_rosenbrock_stages_are_the_declared_method :
+  forall (N : Num) (V M F : Type) (vaxpy : T N -> V -> V -> V) (vzero : V -> V) (forcing : V -> V -> V)
+         (in_place : bool) (solve_sep : F -> V -> V) (solve_ip : M -> V -> V) (p : params N),
+    (forall v v' : V, vzero v = vzero v') ->
+    forall (H : T N) (lm : M) (lf : F) (Y F0 : V) (s : rstate V M F),
+      p_stages p <= length (sK s) -> sY s = Y -> sInitF s = F0 -> sJac s = lm -> sLU s = lf ->
+      forall i, i < p_stages p ->
+        nth i (sK (fst (fst (stages_loop N V M F vaxpy vzero forcing in_place solve_sep solve_ip p H s)))) Y =
+        nth i (fst (spec_stages N V M F vaxpy vzero forcing in_place solve_sep solve_ip p H lm lf Y F0 (p_stages p))) Y.
+Proof. exact stages_compute_the_declared_method. Qed.
+Print Assumptions C05_rosenbrock_stages_are_the_declared_method.
